@@ -155,7 +155,7 @@ func stkGen(rng *rand.Rand, n int, emit func(string)) {
 	emit("wlim b=16384 r=0 w=16392,16384 room=1000000 seed=2")
 	emit("rlim b=4096 r=0 plen=16384 per=16384 n=40000 seed=3")
 	// a stream that ends the way a quic stream does, as frp wraps it (8KB limit, 16 KiB copy buffer): the last 700 bytes come with
-	// EOF — handed on, but not charged (known finding C01-limit-reader-uncharged-tail); the same stream ending the tcp way
+	// EOF — handed on and charged (c863bec); the same stream ending the tcp way
 	emit("rsrc st=lim8192 plen=16384 segs=20000:0,700:E r=0 seed=4")
 	emit("rsrc st=lim8192+stats plen=16384 segs=20000:0,700:0,0:E r=0 seed=4")
 	emit("wsnk st=lim8192+stats w=16384,16384,5000 sink=100000000:0,100000000:0,4000:0 r=0 seed=5")
